@@ -80,7 +80,7 @@ pub fn worker(ctx: &Ctx, res: &mut ShardResult) {
 /// passes of the included-range box: (max document bytes, max ranges in R1, max ranges in R2, crossed with every edit)
 pub fn range_passes(tier: &str) -> Vec<(usize, usize, usize, bool)> {
     if tier == "mini" { vec![(3, 1, 1, false)] }
-    else if tier == "quick" { vec![(2, 2, 2, false), (3, 1, 2, false), (3, 2, 1, false), (4, 1, 1, false), (1, 1, 1, true)] }
+    else if tier == "quick" { vec![(3, 2, 2, false), (4, 1, 1, false), (1, 1, 1, true)] }
     else { vec![(4, 2, 2, false), (7, 1, 2, false), (7, 2, 1, false), (9, 1, 1, false), (3, 1, 2, true), (5, 1, 1, true)] }
 }
 
